@@ -18,12 +18,12 @@ import (
 // increases the epoch; a client of the old generation is refused (and stores
 // nothing) until it re-attaches, while its detach succeeds.
 type compactionMonitor struct {
-	prop    string
-	stale   map[string]bool // client id -> holds an old generation
-	pre     string
-	preErr  error
-	preEpoch int64
-	preHead  int64
+	prop        string
+	stale       map[string]bool // client id -> holds an old generation
+	pre         string
+	preErr      error
+	preEpoch    int64
+	preHead     int64
 	preAttached bool
 }
 
